@@ -119,7 +119,7 @@ func runC03(c *Ctx) {
 		for r := rune(0); r <= 0x1f; r++ {
 			required = append(required, r)
 		}
-		required = append(required, '"', '\'', '`', '\\', '<', '>', '&', '$', '/', 0x2028, 0x2029)
+		required = append(required, '"', '\'', '`', '\\', '<', '>', '&', '$', '{', '/', 0x2028, 0x2029)
 		short := map[string]rune{`\t`: '\t', `\n`: '\n', `\f`: '\f', `\r`: '\r', `\\`: '\\', `\/`: '/', `\b`: '\b', `\v`: '\v'}
 		for _, r := range required {
 			key := fmt.Sprintf("%s|js-escape:U+%04X", keyBase, r)
@@ -371,7 +371,7 @@ func runC03(c *Ctx) {
 						passes[r] = why
 					}
 				}
-				for _, r := range []rune{'"', '\'', '`', '\\', '<', '>', '&', '$', '/', 0x2028, 0x2029} {
+				for _, r := range []rune{'"', '\'', '`', '\\', '<', '>', '&', '$', '{', '/', 0x2028, 0x2029} {
 					if repl, why := probe(r); why == "" {
 						covered[r] = repl
 					} else {
@@ -388,13 +388,17 @@ func runC03(c *Ctx) {
 		for r := rune(0); r <= 0x1f; r++ {
 			required = append(required, r)
 		}
-		required = append(required, '"', '\'', '`', '\\', '<', '>', '&', '$', '/', 0x2028, 0x2029)
+		required = append(required, '"', '\'', '`', '\\', '<', '>', '&', '$', '{', '/', 0x2028, 0x2029)
 		short := map[string]rune{`\t`: '\t', `\n`: '\n', `\f`: '\f', `\r`: '\r', `\\`: '\\', `\/`: '/', `\b`: '\b', `\v`: '\v'}
 		for _, r := range required {
 			key := fmt.Sprintf("%s|js-escape:U+%04X", funcKey(rp, esc), r)
 			repl, has := covered[r]
 			if !has {
-				c.viol("C03.R1", key, c.pos(esc.Pos()), fmt.Sprintf("no replacement for %q (U+%04X) in the in-literal escaper (tables %v): %s — the character reaches the JavaScript string literal verbatim", string(r), r, tables, passes[r]))
+				extra := ""
+				if r == '{' {
+					extra = ". In a template literal the value may directly follow a `$` written by the template itself (`Total: ${{ price }}`): a value that starts with `{` then completes `${…}` and its content is evaluated as code"
+				}
+				c.viol("C03.R1", key, c.pos(esc.Pos()), fmt.Sprintf("no replacement for %q (U+%04X) in the in-literal escaper (tables %v): %s — the character reaches the JavaScript string literal verbatim%s", string(r), r, tables, passes[r], extra))
 				continue
 			}
 			good := false
@@ -978,6 +982,12 @@ func runC03(c *Ctx) {
 				e := ast.Unparen(r.expr)
 				if tv, ok := rinfo.Types[e]; ok && tv.Value != nil {
 					continue // constant (the error paths return "")
+				}
+				// a local that holds the result (s = replace(s, table); return s): what it was last given on this path
+				if id, ok := e.(*ast.Ident); ok {
+					if b, ok := r.env[rinfo.ObjectOf(id)]; ok && b != nil {
+						e = ast.Unparen(b)
+					}
 				}
 				viaEsc, viaJSON := false, false
 				if call, ok := e.(*ast.CallExpr); ok {
